@@ -607,7 +607,7 @@ func init() {
 		}})
 
 	// -----------------------------------------------------------------------
-	register(&Rule{ID: "O1.pipeline", Min: 6, Text: "pipeline order inside PushPull (roles identified by the storage call they reach): continuity validation ≺ presence strip ≺ log append ≺ pull (change range or rebuilt document) ≺ ClientInfo.UpdateDocStatus ≺ Database.UpdateMinVersionVector ≺ Database.UpdateClientInfoAfterPushPull ≺ success return; every step's error edge returns before the next step",
+	register(&Rule{ID: "O1.pipeline", Min: 6, Text: "pipeline order inside PushPull (roles identified by the storage call they reach): continuity validation ≺ every rewrite of the request's change list (the presence strip, found by role: a store into Pack.Changes of the request) ≺ log append ≺ pull (change range or rebuilt document) ≺ ClientInfo.UpdateDocStatus ≺ Database.UpdateMinVersionVector ≺ Database.UpdateClientInfoAfterPushPull ≺ success return; every step's error edge returns before the next step",
 		Run: func(x *Ctx) {
 			p := x.pipe()
 			if !p.ok {
